@@ -138,4 +138,30 @@ pub use extend_init::ExtendInit;
 /// crate-private items so an external harness can call them directly.
 #[cfg(rten_verif)]
 #[doc(hidden)]
-pub mod verif {}
+pub mod verif {
+    // C19: observation point inside `Exp::eval` / `ReducedRangeExp::eval`. When a trace is
+    // active on the current thread, every evaluated vector appends `(k, is, it)` per lane
+    // (`(k, k_pow2, 0)` for `ReducedRangeExp`): the integers the real code builds its
+    // power-of-two factors from.
+    use std::cell::RefCell;
+    thread_local! {
+        static EXP_TRACE: RefCell<Option<Vec<(i32, i32, i32)>>> = const { RefCell::new(None) };
+    }
+    #[inline]
+    pub fn record_exp_factors(k: &[i32], a: &[i32], b: &[i32]) {
+        EXP_TRACE.with(|t| {
+            if let Some(v) = t.borrow_mut().as_mut() {
+                for i in 0..k.len() {
+                    v.push((k[i], a[i], b.get(i).copied().unwrap_or(0)));
+                }
+            }
+        })
+    }
+    /// Run `f` with the trace active and return what was recorded.
+    pub fn trace_exp_factors<R>(f: impl FnOnce() -> R) -> (R, Vec<(i32, i32, i32)>) {
+        EXP_TRACE.with(|t| *t.borrow_mut() = Some(Vec::new()));
+        let r = f();
+        let v = EXP_TRACE.with(|t| t.borrow_mut().take()).unwrap_or_default();
+        (r, v)
+    }
+}
